@@ -231,7 +231,8 @@ def judge (s : DS) (q a : List String) : DS × Verdict :=
       let st := (stateOf s h).getD .waiting
       match a with
       | ["ok"] =>         -- a blocking put / a wait on a send returned
-        if st == .running || st == .done || s.isAmbiguous hi then (s.completed h, .ok)
+        -- (hi.finished: a test() was true before — it swallows failures — and the S4U activity is FINISHED: no simcall)
+        if st == .running || st == .done || s.isAmbiguous hi || hi.finished then (s.completed h, .ok)
         else (s, .disagree s!"model-state-{repr st}")
       | ["ok", pid, size] =>
         match pid.toNat?, size.toInt? with
@@ -250,7 +251,8 @@ def judge (s : DS) (q a : List String) : DS × Verdict :=
           else (s, .disagree s!"test-true-without-payload-model-{repr st}")
       | ["false"] =>
         let atc := ((s.tests.find? (·.1 == act)).map (·.2)).getD .done
-        if atc == .waiting || atc == .running then (s, .ok) else (s, .disagree s!"model-state-at-test-{repr atc}")
+        -- (a comm cancelled in flight stays RUNNING until the failed action is collected at the end of the sub-round)
+        if atc == .waiting || atc == .running || s.isAmbiguous hi then (s, .ok) else (s, .disagree s!"model-state-at-test-{repr atc}")
       | ["exc", _] =>
         if s.isAmbiguous hi || st == .failed || st == .canceled then (s, .ok)
         else (s, .disagree s!"exception-model-state-{repr st}")
